@@ -849,9 +849,10 @@ O(id="C03.self_request_bystander", props=["C03", "C05", "C07"], entry="harness_s
   symbolic="set value, reply payload", assumes=["set-up succeeds"], bounds="skeleton: O add 's'; O set 's' (routed to itself); bystander C disconnects; O replies", **_scn_route)
 
 # the edge of the 32-slot hop window and displacement (find_closer_entry): not reachable at order 2/3
-for _lay, _fill, _lnm, _rch in ((0, 31, "last_slot_free", ["inserted"]), (0, 32, "full", ["refused"]), (1, 32, "displacement", ["inserted"]), (2, 32, "free_slot_beyond_window", ["inserted"])):
-    for _base in (0, 100):
-        O(id="C17.window_%s_base%d" % (_lnm, _base), props=["C17", "C04"], harness="harness/c17_window.c", entry="harness_window",
+for _lay, _fill, _lnm, _rch in ((0, 31, "last_slot_free", ["inserted"]), (0, 32, "full", ["refused"]), (1, 32, "displacement", ["inserted"]), (2, 32, "free_slot_beyond_window", ["inserted"]),
+                                (3, 32, "window_held_by_foreign_keys", ["inserted"])):
+    for _base in (0, 100, 120):      # 100: the window wraps around the table end behind slot 27; 120: already behind slot 7 (the displaced entry lies beyond the wrap)
+        O(id="C17.window_%s_base%d" % (_lnm.replace("window_held", "held"), _base), props=["C17", "C04"], harness="harness/c17_window.c", entry="harness_window",
           defines=["LAYOUT=%d" % _lay, "BASE=%d" % _base, "FILL=%d" % _fill], unwind=130, flags=["--max-field-sensitivity-array-size", "256"], reach=_rch,
           functions=["hashtable_put_T", "find_closer_entry_T", "hashtable_get_T", "hashtable_remove_T (DECLARE_HASHTABLE_UINT32, order 7)"],
           symbolic="stored value (the layout is concrete per obligation)", stubs=["hs_hash32 replaced by a table key -> bucket"],
@@ -993,3 +994,24 @@ for _err in (0, 1):
     O(id="C03.reply_to_request_without_id_" + ("error" if _err else "result"), props=["C03", "C07", "C14"], entry="harness_reply_to_request_without_id",
       defines=["REPLY_ERROR=1"] if _err else [], functions=_RF, symbolic="set value, reply payload", assumes=["set-up succeeds"],
       bounds="skeleton: O add 's'; A set without id; O replies; A set without id again; the deadline passes", **_scn_route)
+
+O(id="C10.writev3_step", props=["C10", "C06"], entry="harness_writev3", reach=["short_write_ends_behind_the_first_chunk", "refused"], defines=["L0=1", "L1=2", "L2=1"],
+  functions=["buffered_socket_writev", "copy_iovec_to_write_buffer", "copy_single_buffer", "send_buffer"],
+  symbolic="pending byte count and write-buffer contents, three frame chunks (lengths 0..1, 0..2, 0..1, contents), kernel verdict of every write call, tracked stream position",
+  assumes=["to_write <= W (representation invariant of the write buffer; proved preserved: C10.pending_count_in_bounds)"],
+  bounds="W=4, frame = 3 chunks of <= 1, 2, 1 bytes", timeout={"quick": 900, "thorough": 1800}, label_props={"C10.pending_count_in_bounds": ["C10", "C06"]}, **_bs)
+
+# routed ids that all collide into one bucket of the owner's routing table (the later ones live in neighbouring slots)
+_scn_route_collide = dict(_scn_route, unit_defines=dict(_scn_route.get("unit_defines", {}), **{"model/wrap/router_abs.c": ["VERIF_HASH_CONST=3"]}))
+for _cfg, _sfx, _txt in ((_scn_route, "", "routed ids in distinct buckets"), (_scn_route_collide, "_colliding_ids", "all routed ids collide into bucket 3 (entries wrap around the 4-slot table)")):
+    O(id="C03.owner_leaves_two_callers" + _sfx, props=["C03", "C05", "C07", "C17"], entry="harness_owner_leaves_two_callers", functions=_RF, symbolic="set value",
+      defines=[] if _sfx else ["THIRD_REQUEST=1"],
+      assumes=["set-up succeeds"], bounds="skeleton: O add 's'; A set (id 7); C set (id 8)%s; O disconnects; %s" % ("" if _sfx else "; A set (id 9)", _txt), **dict(_cfg, unwind=8))
+O(id="C03.reply_result_colliding_ids", props=["C03", "C02", "C07", "C14"], entry="harness_reply", functions=_RF, symbolic="set value, reply payload", assumes=["set-up succeeds"],
+  bounds="as C03.reply_result with every routed id colliding into bucket 3", **_scn_route_collide)
+O(id="C03.limit_colliding_ids", props=["C03", "C07"], entry="harness_limit", reach=["refused_at_limit"], functions=_RF, symbolic="set value",
+  assumes=["set-up succeeds"], bounds="five sets in flight to one owner, routing table order 2 (4 slots), every routed id colliding into bucket 3", **dict(_scn_route_collide, unwind=8))
+O(id="C03.bystander_with_request_colliding_ids", props=["C03", "C05", "C11", "C07"], entry="harness_bystander", defines=["BYSTANDER_HAS_REQUEST=1"], functions=_RF,
+  symbolic="set value, reply payload", assumes=["set-up succeeds"], bounds="as C03.bystander_with_request with colliding routed ids", **_scn_route_collide)
+O(id="C14.timeout_colliding_ids", props=["C14", "C03", "C07", "C02"], entry="harness_timeout", functions=_RF, symbolic="set value",
+  assumes=["set-up succeeds"], bounds="as C14.timeout with colliding routed ids", **_scn_route_collide)
